@@ -111,7 +111,7 @@ def base_docs():
 BASES = base_docs()
 
 # '<<' is a real merge key (tag merge); '<<str' is the quoted string "<<"
-KEYS = ['zz', '<<', 'a', '_yatiml_extra', 'self', 'b', 'x', 'p', 's',
+KEYS = ['zz', '<<', '_yatiml_extra', 'a', 'self', 'b', 'x', 'p', 's',
         'center', 'radius', 'n', '{0} {x} %s', '<<str']
 VALS = ['1', 'abc', 'true', '', '{0} {x} %s', '1.5', '2001-12-14', '-', 'red',
         '0x1F', '1_000', '.inf', '13', 'boom', 'null', '14', '15']
@@ -142,14 +142,15 @@ SCALAR_PAIRS = [
     ('tag:yaml.org,2002:int', '14'), ('tag:yaml.org,2002:int', '15'),
     (T_STR, '{0} {x} %s'),
 ]
-COLL_TAGS = [T_SEQ, T_MAP, T_STR, 'tag:yaml.org,2002:set',
+COLL_TAGS = [T_SEQ, T_MAP, '!Trap', '!Sub', T_STR, 'tag:yaml.org,2002:set',
              'tag:yaml.org,2002:omap', 'tag:yaml.org,2002:pairs',
              PY + 'object:verif_canary.Boom',
              PY + 'object/new:verif_canary.Boom', 'tag:yaml.org,2002:int']
 RETAGS = docs.CORE_TAGS + [
-    PY + 'object/apply:verif_canary.fire', 'tag:yaml.org,2002:set'
-    ] + COLL_TAGS[4:] + [PY + 'name:verif_canary.fire',
-                         'tag:yaml.org,2002:binary', 'tag:yaml.org,2002:zz']
+    '!Trap', '!Sub', PY + 'object/apply:verif_canary.fire',
+    'tag:yaml.org,2002:set'] + COLL_TAGS[6:] + [
+    PY + 'name:verif_canary.fire', 'tag:yaml.org,2002:binary',
+    'tag:yaml.org,2002:zz']
 NPAIR = len(SCALAR_PAIRS)
 NCOLL = len(COLL_TAGS)
 # rsel layout: [0, NPAIR) scalar pairs | 4 collection kinds x COLL_TAGS |
@@ -159,8 +160,10 @@ NRSEL = NPAIR + 4 * NCOLL + 6 + 1
 # optional int parameter f (isinstance(True, int) holds in Python)
 PAYLOAD_KEYS = ['f']      # an optional int parameter of Doc, Perm, Picky
 QUICK_RSEL = (list(range(0, 8)) + [9, 11, 15, 19, NPAIR - 1] +
-              [NPAIR + k * NCOLL + t for k in range(2) for t in (0, 1)] +
-              [NPAIR + 2 * NCOLL, NPAIR + 3 * NCOLL + 1, NPAIR + 6] +
+              [NPAIR + 0 * NCOLL + t for t in (0, 1)] +     # [x] as seq/map
+              [NPAIR + 1 * NCOLL + t for t in (0, 1, 2, 3)] +   # {x: 1}
+              [NPAIR + 2 * NCOLL, NPAIR + 3 * NCOLL + 1,
+               NPAIR + 1 * NCOLL + 8] +
               [NPAIR + 4 * NCOLL + k for k in (0, 2, 3, 6)])
 
 
@@ -200,10 +203,10 @@ NSUB = 3
 
 def slice_of(s: int):
     """slice number -> (index into BASES, tuple of mutation kinds, site
-    residue class mod NSUB or None).  The REPLACE group is split by site."""
+    residue class mod NSUB or None).  The REPLACE and ADD groups are split by site."""
     sub = s % NSUB
     g = (s // NSUB) % 3
-    return s // (3 * NSUB), GROUPS[g], (sub if g == 0 else None)
+    return s // (3 * NSUB), GROUPS[g], (sub if g in (0, 1) else None)
 
 
 def _slices(pred):
@@ -212,7 +215,7 @@ def _slices(pred):
         if not pred(mi, bi, n):
             continue
         for g in range(3):
-            subs = range(min(NSUB, n)) if g == 0 else [0]
+            subs = range(min(NSUB, n)) if g in (0, 1) else [0]
             out += [(i * 3 + g) * NSUB + sub for sub in subs]
     return out
 
@@ -239,8 +242,8 @@ class Limits:
     def __init__(self, quick: bool):
         self.rsel = QUICK_RSEL if quick else list(range(NRSEL))
         self.nvals = 5 if quick else len(VALS)
-        self.nkeys = 3 if quick else len(KEYS)
-        self.nretags = 10 if quick else len(RETAGS)
+        self.nkeys = 4 if quick else len(KEYS)
+        self.nretags = 12 if quick else len(RETAGS)
 
 
 FULL = Limits(False)
@@ -335,18 +338,18 @@ def explore(sl: int, site: int, mut: int, rsel: int, tag: str, vsel: int,
 
 
 MUTANT_PRE = """
-    pre: 0 <= site < 28 and 0 <= mut < 7 and 0 <= rsel < 80
+    pre: 0 <= site < 28 and 0 <= mut < 7 and 0 <= rsel < 90
     pre: 1 <= len(tag) <= 40 and tag != '!'
     pre: not tag.startswith('tag:yaml.org,2002:')
     pre: 0 <= vsel < 17 and 0 <= ksel < 14
 """
 MUTANT_BOUND = (
-    'one slice per (model, base document, mutation group; REPLACE also by '
-    'site mod 3): every single-point mutation (7 kinds) at every node; '
+    'one slice per (model, base document, mutation group; REPLACE and ADD also '
+    'by site mod 3): every single-point mutation (7 kinds) at every node; '
     'replacement/added nodes: 37 (tag, value) scalar pairs, 4 collection '
-    'shapes x 9 tags, 6 shapes with a FREE non-core tag, a merge payload mapping (quick: 24 of these '
+    'shapes x 11 tags (incl. registered class names), 6 shapes with a FREE non-core tag, a merge payload mapping (quick: 24 of these '
     '80); retag with the free tag or 21 (quick 10) palette tags; 17 (quick '
-    '4) palette values; 14 (quick 3) palette keys incl. a real merge key; quick tier: first base '
+    '4) palette values; 14 (quick 4) palette keys incl. a real merge key; quick tier: first base '
     'document of each model')
 PIPELINE_ENCODED = [
     'yatiml.loader.LoadFunction.__call__', 'Loader.__init__',
